@@ -86,6 +86,14 @@ func weave(src []byte, rewrites []string) ([]byte, bool, error) {
 		}
 	}
 
+	if want["chan"] {
+		if rewriteChans(f) {
+			changed = true
+
+			addImport(f, "vchan", rtPath+"vchan")
+		}
+	}
+
 	if !changed {
 		return src, false, nil
 	}
@@ -200,4 +208,118 @@ func rehome(src []byte, pkg string, rewrites []string) ([]byte, error) {
 	}
 
 	return []byte(s), nil
+}
+
+// rewriteChans turns the operations on `chan any` values of one file into
+// calls on the scheduler-visible *vchan.Chan: the channel type, make, send,
+// receive (one- and two-value), len, cap and close. It is written for
+// data/channel.go, whose only channels are `chan any` struct fields.
+func rewriteChans(f *ast.File) bool {
+	changed := false
+
+	isChanAny := func(e ast.Expr) bool {
+		c, ok := e.(*ast.ChanType)
+		if !ok {
+			return false
+		}
+
+		id, ok := c.Value.(*ast.Ident)
+
+		return ok && (id.Name == "any")
+	}
+
+	vtype := func() ast.Expr {
+		return &ast.StarExpr{X: &ast.SelectorExpr{X: ast.NewIdent("vchan"), Sel: ast.NewIdent("Chan")}}
+	}
+
+	method := func(x ast.Expr, name string, args ...ast.Expr) *ast.CallExpr {
+		return &ast.CallExpr{Fun: &ast.SelectorExpr{X: x, Sel: ast.NewIdent(name)}, Args: args}
+	}
+
+	isChanField := func(e ast.Expr) bool {
+		sel, ok := e.(*ast.SelectorExpr)
+
+		return ok && sel.Sel.Name == "channel"
+	}
+
+	var fixExpr func(e ast.Expr, two bool) ast.Expr
+
+	fixExpr = func(e ast.Expr, two bool) ast.Expr {
+		switch v := e.(type) {
+		case *ast.UnaryExpr:
+			if v.Op == token.ARROW && isChanField(v.X) {
+				changed = true
+
+				if two {
+					return method(v.X, "Recv2")
+				}
+
+				return method(v.X, "Recv")
+			}
+		case *ast.CallExpr:
+			if id, ok := v.Fun.(*ast.Ident); ok && len(v.Args) >= 1 {
+				switch {
+				case id.Name == "make" && isChanAny(v.Args[0]):
+					changed = true
+					size := ast.Expr(&ast.BasicLit{Kind: token.INT, Value: "0"})
+
+					if len(v.Args) > 1 {
+						size = v.Args[1]
+					}
+
+					return &ast.CallExpr{Fun: &ast.SelectorExpr{X: ast.NewIdent("vchan"), Sel: ast.NewIdent("Make")}, Args: []ast.Expr{size}}
+				case (id.Name == "len" || id.Name == "cap") && isChanField(v.Args[0]):
+					changed = true
+
+					return method(v.Args[0], strings.Title(id.Name))
+				case id.Name == "close" && isChanField(v.Args[0]):
+					changed = true
+
+					return method(v.Args[0], "Close")
+				}
+			}
+		}
+
+		return e
+	}
+
+	ast.Inspect(f, func(n ast.Node) bool {
+		switch v := n.(type) {
+		case *ast.Field:
+			if isChanAny(v.Type) {
+				v.Type = vtype()
+				changed = true
+			}
+		case *ast.AssignStmt:
+			for i, r := range v.Rhs {
+				v.Rhs[i] = fixExpr(r, len(v.Lhs) == 2 && len(v.Rhs) == 1)
+			}
+		case *ast.KeyValueExpr:
+			v.Value = fixExpr(v.Value, false)
+		case *ast.BinaryExpr:
+			v.X = fixExpr(v.X, false)
+			v.Y = fixExpr(v.Y, false)
+		case *ast.ReturnStmt:
+			for i, r := range v.Results {
+				v.Results[i] = fixExpr(r, false)
+			}
+		case *ast.CallExpr:
+			for i, a := range v.Args {
+				v.Args[i] = fixExpr(a, false)
+			}
+		case *ast.ExprStmt:
+			v.X = fixExpr(v.X, false)
+		case *ast.BlockStmt:
+			for i, st := range v.List {
+				if snd, ok := st.(*ast.SendStmt); ok && isChanField(snd.Chan) {
+					v.List[i] = &ast.ExprStmt{X: method(snd.Chan, "Send", snd.Value)}
+					changed = true
+				}
+			}
+		}
+
+		return true
+	})
+
+	return changed
 }
